@@ -81,8 +81,12 @@ func main() {
 	}
 }
 
+// one client factory for all connections of the process, as in obfs4proxy (clientSetup creates it once per transport):
+// whatever a factory carries from one connection to the next is part of what is observed
+var sharedCF, _ = (&obfs4.Transport{}).ClientFactory("")
+
 func dialReal(raw net.Conn, line *ref.Identity, legacy bool) (net.Conn, error) {
-	cf, _ := (&obfs4.Transport{}).ClientFactory("")
+	cf := sharedCF
 	a := &pt.Args{"cert": {line.Cert()}, "iat-mode": {"0"}}
 	if legacy {
 		a = &pt.Args{"node-id": {line.NodeIDHex()}, "public-key": {line.PublicHex()}, "iat-mode": {"0"}}
@@ -450,7 +454,7 @@ func runFreshFault(s *scenario) {
 			}
 			cch := make(chan error, 1)
 			go func() {
-				cf, _ := (&obfs4.Transport{}).ClientFactory("")
+				cf := sharedCF
 				args, err := cf.ParseArgs(&pt.Args{"cert": {b.ID.PublicOnly().Cert()}, "iat-mode": {"0"}})
 				if err != nil {
 					cch <- err
